@@ -267,8 +267,36 @@ class Runner(object):
         return n if n <= self.max_m else self.max_m
 
 
+class Bad(object):
+    """A value printed by the implementation that is not a finite double (inf, nan, garbage)."""
+
+    def __init__(self, tok):
+        self.tok = tok
+
+    def __repr__(self):
+        return "<%s>" % self.tok
+
+
 def cfloat(tok):
-    return FR(float.fromhex(tok))
+    """C output token -> exact Fraction, or Bad(tok) when it is not a finite number."""
+    try:
+        f = float.fromhex(tok)
+    except (ValueError, OverflowError):
+        try:
+            f = float(tok)
+        except (ValueError, OverflowError):
+            return Bad(tok)
+    if f != f or f in (float("inf"), float("-inf")):
+        return Bad(tok)
+    return FR(f)
+
+
+def isbad(*vals):
+    return any(isinstance(v, Bad) for v in vals)
+
+
+def show(v):
+    return v.tok if isinstance(v, Bad) else "%.17g" % float(v)
 
 
 def close(c, mval, scale):
@@ -291,6 +319,8 @@ def cmp_rfi_values(case, cvals, exp, stats):
         if e is None:
             return "query %d: the model faults (index out of bounds / assert)" % i
         (mv, cond) = e
+        if isbad(*cv):
+            return "query %d (x = %s): C returns a non-finite value %s, model %s" % (i, float(q), fl2(cv), fl2(mv))
         if q in case.xp:
             k = case.xp.index(q)
             stats["knot"] += 1
@@ -309,7 +339,7 @@ def cmp_rfi_values(case, cvals, exp, stats):
 
 
 def fl2(v):
-    return "(%.17g, %.17g)" % (float(v[0]), float(v[1]))
+    return "(%s, %s)" % (show(v[0]), show(v[1]))
 
 
 def check_rfi_case(R, case, cout, stats):
@@ -756,8 +786,8 @@ def check_spline_case(R, case, co, mo, st):
     if case.op == "corr" and n == 1:
         # one sigma value applies to all frequencies
         for t in co[1:]:
-            if cfloat(t) != case.ys[0]:
-                return "single-point sigma vector: C returns %s, supplied %s" % (float(cfloat(t)), float(case.ys[0]))
+            if isbad(cfloat(t)) or cfloat(t) != case.ys[0]:
+                return "single-point sigma vector: C returns %s, supplied %s" % (show(cfloat(t)), float(case.ys[0]))
         return None
     if mo[1] == "EINVAL":
         st["einval"] += 1
@@ -776,6 +806,9 @@ def check_spline_case(R, case, co, mo, st):
         if ct == "E":
             continue
         cv, mv = cfloat(ct), FR(mt)
+        if isbad(cv):
+            kn = (" = knot %d" % case.xp.index(q)) if q in case.xp else ""
+            return "query %d (x = %.17g%s): C returns a non-finite value %s, model %.17g" % (i, float(q), kn, cv.tok, float(mv))
         if q in case.xp:
             k = case.xp.index(q)
             st["knot"] += 1
@@ -932,7 +965,12 @@ def check_ranges(ctx, R, rcases, routs, broken):
         if outcome == "ACC" and case.op == "merr":
             r = check_merr_values(R, case, co)
             if r is not None:
-                handle_failure(ctx, R, Case("spline", xp=case.xp, ys=case.ys, qs=case.cf), r, broken)
+                ctx.violation({"kind": "disagreement", "op": "merr", "class": "knot" if "knot" in r else "interpolation", "n": len(case.xp)},
+                              "merr with %d knot(s) %s, sigma %s, calibration frequencies %s: %s"
+                              % (len(case.xp), [float(v) for v in case.xp], [float(v) for v in case.ys], [float(v) for v in case.cf], r),
+                              {"case": case.to_json(), "c_output": co,
+                               "how": "harness/interp_harness.c, one line on stdin; model: ocaml/drv_interp.ml (spline <noise grid> evaluated at the calibration frequencies)",
+                               "broken_obligations": sorted(broken)})
     ctx.extra["range_outcomes"] = dict(("%s/%s/%s" % k, v) for k, v in sorted(counts.items()))
     ctx.obligation("tie:RangeGen==implementation (accept/reject)", tie_bad is None, tie_bad or "")
     if tie_bad is not None:
